@@ -101,7 +101,7 @@ PROPS = {
     },
     'C16': {
         'level': 'proof', 'extra': ['pyframe.effects'],
-        'explanation': 'Protocol obligations: the memo is dropped after every storage swap (or by every caller of a private helper that swaps), and Table.fingerprint does not return a memo that column writes cannot invalidate. The Horner loop and the sensitivity lemmas are not yet discharged; coherence along histories is bounded.',
+        'explanation': "Vector._compute_fingerprint_full is proved on the real text to return the Horner fold (base B, modulus P = 2^61-1) of the element hashes of the CURRENT contents, for any length (loop invariant fp_loop_inv: initiation + consecution); Vector.fingerprint, under memo coherence (memo absent or current), returns that fold and leaves a coherent memo; _invalidate_fp drops the memo; _hash_element is proved path by path for str / int / bool / None and for float elements (Python's own hash(), fixed codes for None and NaN), and assumed a deterministic function of the element elsewhere. Sensitivity lemmas over the step function (carry, inject, order, range) are discharged by z3 for the constants P and B of the spec functions, which the real class attributes must equal for the postcondition of _compute_fingerprint_full to hold. Protocol obligations (pyframe): the memo is dropped after every storage swap (or by every caller of a private helper that swaps), and Table.fingerprint does not return a memo that column writes cannot invalidate. _ensure_fp_powers (a cache the result does not depend on) is assumed to write only _fp_powers; Table.fingerprint's own fold over columns and coherence along whole histories (write paths through tables, promotion, column replacement) are bounded.",
         'trusted': [PYFRAME_TRUST, 'hash() deterministic within a process'],
     },
     'C17': {
